@@ -5,6 +5,7 @@ package c17
 import (
 	"encoding/json"
 	"fmt"
+	"github.com/google/jsonschema-go/jsonschema"
 	"math/big"
 	"os"
 	"regexp"
@@ -103,6 +104,10 @@ type doc struct {
 	markers []int
 }
 
+// loadedDocs: for the cases that need a Loader, the documents it serves (retrieval URI -> text),
+// keyed by draft and description; the root is then retrieved from http://h/root.json.
+var loadedDocs = map[string]map[string]string{}
+
 func mkDoc(d ref.Draft, cont string, frag string) string {
 	fb, _ := json.Marshal("#" + frag)
 	if d == ref.D07 {
@@ -119,6 +124,23 @@ func mkDocEmb(d ref.Draft, cont, decoy, frag string) string {
 		return fmt.Sprintf(`{"$schema":"http://json-schema.org/draft-07/schema#","definitions":{"r":{"$id":"http://h/r.json","definitions":{"c":%s},"allOf":[{"$ref":%s}]},"c":%s},"allOf":[{"$ref":"#/definitions/r"}]}`, cont, fb, decoy)
 	}
 	return fmt.Sprintf(`{"$defs":{"r":{"$id":"http://h/r.json","$defs":{"c":%s},"$ref":%s},"c":%s},"$ref":"#/$defs/r"}`, cont, fb, decoy)
+}
+
+// mkDocLoaded: the container sits in a resource r.json that is EMBEDDED in the loaded document
+// a.json; the pointer reference to it is made from a second loaded document b.json (the root and
+// a.json hold decoy containers with other markers under the same pointer text).
+func mkDocLoaded(d ref.Draft, cont, decoy, frag string) (string, map[string]string) {
+	fb, _ := json.Marshal("http://h/r.json#" + frag)
+	if d == ref.D07 {
+		return fmt.Sprintf(`{"$schema":"http://json-schema.org/draft-07/schema#","$id":"http://h/root.json","allOf":[{"$ref":"a.json#/definitions/keep"},{"$ref":"b.json"}],"definitions":{"c":%s}}`, decoy), map[string]string{
+			"http://h/a.json": fmt.Sprintf(`{"definitions":{"keep":true,"r":{"$id":"http://h/r.json","definitions":{"c":%s}},"c":%s}}`, cont, decoy),
+			"http://h/b.json": fmt.Sprintf(`{"allOf":[{"$ref":%s}]}`, fb),
+		}
+	}
+	return fmt.Sprintf(`{"$id":"http://h/root.json","allOf":[{"$ref":"a.json#/$defs/keep"},{"$ref":"b.json"}],"$defs":{"c":%s}}`, decoy), map[string]string{
+		"http://h/a.json": fmt.Sprintf(`{"$defs":{"keep":true,"r":{"$id":"http://h/r.json","$defs":{"c":%s}},"c":%s}}`, cont, decoy),
+		"http://h/b.json": fmt.Sprintf(`{"$ref":%s}`, fb),
+	}
 }
 
 // mkDocDecoy07 adds a definitions entry whose fragment-only $id is spelled like the pointer that
@@ -186,6 +208,25 @@ func build(thorough bool) []doc {
 			docs = append(docs, doc{mkDocEmb(d, cont, decoy, ref.FragmentEncode(p)), l.marker, d, "valid (inside embedded resource) " + p, both})
 		}
 		docs = append(docs, doc{mkDocEmb(d, cont, decoy, ref.FragmentEncode(prefix[:len(prefix)-1]+"r")), -1, d, "invalid (inside embedded resource: names a location of the document root) " + prefix[:len(prefix)-1] + "r", both})
+		// ... and from another loaded document into a resource embedded in a loaded document (every 5th location; thorough: every 2nd)
+		lstep := 5
+		if thorough {
+			lstep = 2
+		}
+		for li := 0; li < len(locs); li += lstep {
+			l := locs[li]
+			p := prefix + l.ptr
+			root, ld := mkDocLoaded(d, cont, decoy, ref.FragmentEncode(p))
+			desc := "valid (pointer from a loaded document into a resource embedded in another loaded document) " + p
+			loadedDocs[d.String()+" "+desc] = ld
+			docs = append(docs, doc{root, l.marker, d, desc, both})
+		}
+		{
+			root, ld := mkDocLoaded(d, cont, decoy, ref.FragmentEncode(prefix+"/nope"))
+			desc := "invalid (pointer from a loaded document into an embedded resource: no such member)"
+			loadedDocs[d.String()+" "+desc] = ld
+			docs = append(docs, doc{root, -1, d, desc, both})
+		}
 		// pointers of exactly two segments: the marked subschemas sit directly in the root's $defs / definitions
 		{
 			kw := "$defs"
@@ -353,7 +394,7 @@ func unescape(s string) string {
 func Run(r *ev.Run) {
 	docs := build(r.Tier == "thorough")
 	r.Rule("for both drafts: a container schema with a uniquely marked subschema under every schema-valued, schema-array-valued (indices 0..2, allOf 0..11) and schema-map-valued keyword (33-key alphabet incl. keyword-like names 'items', 'type', 'not', 'allOf', 'dependencies', '', '/', '~', '~0', '~01', '%', '%25', ' ', non-ASCII, digits, '-', quotes) is referenced by '#'+percent-encoded RFC 6901 pointer (raw non-ASCII form, and with slashes written as %2F); also as pointers of exactly two segments into a root-level $defs / definitions map that holds the whole key alphabet; nested to depth 2; " +
-		"also from inside an embedded $id resource whose pointers must be read relative to that resource while the document root holds a decoy container with other markers; plus every invalid mutation (index = length, a digit prepended or appended, pointers through absent containers, leading zeros, '-', signs, spaces, non-decimal digits, overflow, trailing slash, bad '~' escape, wrong letter case, Go field names, non-schema members). Valid pointers must select exactly the marked subschema (verdict vector over all markers), invalid ones must make Resolve fail. Documents are distinct by construction; every one is non-trivial")
+		"also from inside an embedded $id resource whose pointers must be read relative to that resource while the document root holds a decoy container with other markers, and from one Loader document into a resource that is embedded in another Loader document (decoys in the root and in the embedding document); plus every invalid mutation (index = length, a digit prepended or appended, pointers through absent containers, leading zeros, '-', signs, spaces, non-decimal digits, overflow, trailing slash, bad '~' escape, wrong letter case, Go field names, non-schema members). Valid pointers must select exactly the marked subschema (verdict vector over all markers), invalid ones must make Resolve fail. Documents are distinct by construction; every one is non-trivial")
 	r.Assume("the pointer of a location is built from the independent keyword table with RFC 6901 escaping and RFC 3986 fragment encoding (internal/ref/uri.go); R1 must agree with the constructed expectation (else harness error)")
 	r.Set("documents", len(docs))
 	par.For(len(docs), r.Expired, func(i int, j par.Journal) {
@@ -363,7 +404,14 @@ func Run(r *ev.Run) {
 			return
 		}
 		// oracle agreement (R1 vs construction)
-		u, err := ref.NewUniverseD(d.text, "", nil, nil, ref.D2020)
+		base := ""
+		var opts *jsonschema.ResolveOptions
+		loaded := loadedDocs[key]
+		if loaded != nil {
+			base = "http://h/root.json"
+			opts = &jsonschema.ResolveOptions{BaseURI: base, Loader: (&drive.MapLoader{Docs: loaded}).Load}
+		}
+		u, err := ref.NewUniverseD(d.text, base, loaded, nil, ref.D2020)
 		if err != nil {
 			fmt.Fprintln(os.Stderr, "HARNESS-ERROR c17: oracle cannot index", d.text, err)
 			os.Exit(2)
@@ -375,7 +423,7 @@ func Run(r *ev.Run) {
 		}
 		j.Begin(key)
 		defer j.End()
-		rs, stage, ierr := drive.Compile(d.text, nil)
+		rs, stage, ierr := drive.Compile(d.text, opts)
 		r.Eval(1)
 		r.NontrivialN(1)
 		if i%499 == 0 {
